@@ -417,7 +417,8 @@ fn ts_case(rep: &mut Report, batch: &mut Vec<(String, String, Vec<u8>)>, date: u
 /// Strict 8.3 grammar over ISO-8859-1, written from the Microsoft specification:
 /// base 1..8 characters, optionally '.' and 0..3 extension characters; the characters
 /// 0x00-0x1F " * + , / : ; < = > ? [ \ ] | and space are not allowed; '.' only as the separator;
-/// "." and ".." (and the empty string, by this library's documentation) are the directory names.
+/// "." and ".." (and the empty string, by this library's documentation) are the directory names;
+/// a first byte of 0xE5 is stored as 0x05.
 pub fn spec_sfn(s: &[char]) -> Option<[u8; 11]> {
     let st: String = s.iter().collect();
     if st == ".." {
@@ -449,6 +450,11 @@ pub fn spec_sfn(s: &[char]) -> Option<[u8; 11]> {
         for (i, c) in ext.iter().enumerate() {
             out[8 + i] = c.to_ascii_uppercase() as u32 as u8;
         }
+    }
+    // "If DIR_Name[0] == 0x05, then the actual file name character for this byte is 0xE5" (FAT specification):
+    // 0xE5 in the first byte would mark the entry as deleted
+    if out[0] == 0xE5 {
+        out[0] = 0x05;
     }
     Some(out)
 }
